@@ -171,7 +171,13 @@ def make_printer(L, name):
 
 def parse_tree(L, j):
     text, wc = TEXTS[j]
-    return L.parser.parse(text, with_comments=wc)
+    tree = L.parser.parse(text, with_comments=wc)
+    if j == 0:
+        # one tree names its source file (as io.read does), the others do
+        # not: a path left behind by an abandoned walk shows in their
+        # fragments
+        tree.sourcepath = 'lib/first.js'
+    return tree
 
 
 def malform(L, tree):
